@@ -119,6 +119,75 @@ impl Patterns {
 //@@ header
         ensures r == self.minimum_len
 //@@ end
+
+// R-idx: `self.by_id[id]` -> `self.by_id[id.as_usize()]` (body of `Index<PatternID> for Vec<T>`);
+// R-deref: `&Vec<u8>` -> `.as_slice()` (the coercion the compiler inserts)
+//@@ fn src/packed/pattern.rs | pub(crate) fn get(&self, id: PatternID) -> Pattern<'_> | within=impl Patterns | res=r
+//@@ sigsub 1 /pub\(crate\) fn/ => fn
+//@@ sub 1 /Pattern\(&self\.by_id\[id\]\)/ => Pattern(self.by_id[id.as_usize()].as_slice())
+//@@ header
+        requires id.0 < self.by_id@.len(),      // the indexing panics otherwise (documented)
+        ensures r.0@ == pv(self)[id.0 as int],
+//@@ end
+
+//@@ fn src/packed/pattern.rs | pub(crate) fn iter(&self) -> PatternIter<'_> | within=impl Patterns | res=r
+//@@ sigsub 1 /pub\(crate\) fn/ => fn
+//@@ header
+        ensures r.patterns == self, r.i == 0,
+//@@ end
+}
+
+impl PatternID {
+    // identifier newtypes are u32 newtypes here (types.inc); `as_usize` is the widening cast
+    fn as_usize(&self) -> (r: usize) ensures r == self.0 as usize { self.0 as usize }
+}
+
+//@@ item src/packed/pattern.rs | pub(crate) struct Pattern<'a>
+//@@ sigsub 1 /pub\(crate\) struct/ => struct
+//@@ end
+
+//@@ item src/packed/pattern.rs | pub(crate) struct PatternIter<'p>
+//@@ sigsub 1 /pub\(crate\) struct/ => struct
+//@@ end
+
+// `order` names patterns of the collection (a permutation of the identifiers: pats_wf before
+// `set_match_kind` sorts it, and sorting permutes)
+spec fn ord_ok(p: &Patterns) -> bool {
+    &&& p.order@.len() == p.by_id@.len()
+    &&& forall|i: int| 0 <= i < p.order@.len() ==> (#[trigger] p.order@[i]).0 < p.by_id@.len()
+}
+
+impl<'p> Pattern<'p> {
+//@@ fn src/packed/pattern.rs | pub(crate) fn len(&self) -> usize | within=impl<'p> Pattern<'p> | res=r
+//@@ sigsub 1 /pub\(crate\) fn/ => fn
+//@@ header
+        ensures r == self.0@.len()
+//@@ end
+
+//@@ fn src/packed/pattern.rs | pub(crate) fn bytes(&self) -> &[u8] | within=impl<'p> Pattern<'p> | res=r
+//@@ sigsub 1 /pub\(crate\) fn/ => fn
+//@@ header
+        ensures r@ == self.0@
+//@@ end
+}
+
+// R-trait: the `Iterator` impl as an inherent impl (only `next` is defined by the crate)
+impl<'p> PatternIter<'p> {
+// the contract unit u5_rabinkarp assumes of this function: the patterns in `order`, each with
+// its own identifier and bytes, then None for good
+//@@ fn src/packed/pattern.rs | fn next(&mut self) -> Option<(PatternID, Pattern<'p>)> | within=impl<'p> Iterator for PatternIter<'p> | res=r
+//@@ header
+        requires ord_ok(old(self).patterns),
+        ensures
+            final(self).patterns == old(self).patterns,
+            old(self).i < pv(old(self).patterns).len() ==> {
+                &&& r is Some
+                &&& r->Some_0.0 == old(self).patterns.order@[old(self).i as int]
+                &&& r->Some_0.1.0@ == pv(old(self).patterns)[r->Some_0.0.0 as int]
+                &&& final(self).i == old(self).i + 1
+            },
+            old(self).i >= pv(old(self).patterns).len() ==> r is None && final(self).i == old(self).i,
+//@@ end
 }
 
 struct Config { x: u8 }
